@@ -1966,8 +1966,12 @@ class Interp:
             if name in ("startswith", "endswith") and isinstance(args[0], str):
                 return getattr(o, name)(args[0])
         if isinstance(o, IdStr):
-            if name in ("lower", "strip"):
+            if name in ("lower",):
                 return o
+            if name in ("strip", "lstrip", "rstrip", "replace", "upper", "casefold", "translate"):
+                return self.ps.fresh_id()  # some other (unknown) string
+            if name == "split":
+                return ListObj([self.ps.fresh_id()])
         raise OutOfSubset(f"method {type(o).__name__}.{name}")
 
     def format_str(self, fmt: str, args, kw):
